@@ -7,7 +7,8 @@ package base
 //@ func LengthEncodedInt(data []byte) (num uint64, isNull bool, n int, err error)
 //@   props C12 C14
 //@   safety
-//@   ensures consumed: err == nil ==> 1 <= n && n <= len(data) && (n == 1 || n == 3 || n == 4 || n == 9)
+//@   ensures bounds: err == nil ==> 1 <= n && n <= len(data)
+//@   ensures widths: err == nil ==> n == 1 || n == 3 || n == 4 || n == 9
 //@   ensures on-error: err != nil ==> n == 0 && num == 0 && !isNull
 //@   ensures null: err == nil ==> (isNull <==> data[0] == 0xfb)
 //@   ensures one-byte: err == nil && data[0] < 0xfb ==> n == 1 && num == uint64(data[0])
